@@ -17,7 +17,7 @@ OPTIONAL_BUILDS = ["asan"]
 BUDGET_S = {"quick": 150, "thorough": 2400}
 RULE = ("Files are generated per registered suffix from that language's comment forms (line, block, "
         "decorated-star, doc, Markdown link, HTML), code lines and decoy tags in strings/markup, with "
-        "nesting <=4, tags alone / after prose / on line k of n / several per comment / followed by code, "
+        "nesting <=4, tags alone / after prose / on line k of n / several per comment (start+end, two starts, two ends) / followed by code, "
         "LF or CRLF, ASCII or multi-byte prose. Truth is recorded while writing. A case is one file; it is "
         "non-trivial when it has >=2 blocks and (nesting or a decoy). Distinct = hash of file bytes + suffix.")
 ASSUMPTIONS = [
@@ -27,7 +27,7 @@ ASSUMPTIONS = [
     "Markdown: a pair's two tags use the same comment family (link-definition vs HTML); blockwatch pairs them on separate stacks",
 ]
 
-LAYOUTS = ("own", "multi", "inline", "shared")
+LAYOUTS = ("own", "multi", "inline", "shared", "double")
 
 
 def plan(tier, seed):
@@ -174,7 +174,7 @@ def run_job(job, ctx):
             for eol in ("\n", "\r\n"):
                 for mb in (False, True):
                     r = rng("c03", job["seed"], suffix, job["form"], job["layout"], rep, eol, mb)
-                    layouts = (job["layout"],) if job["layout"] != "shared" else ("shared", "own")
+                    layouts = (job["layout"],) if job["layout"] not in ("shared", "double") else (job["layout"], "own")
                     o = gen.Opts(forms=[job["form"]], layouts=layouts, eol=eol, multibyte=mb,
                                  attrs_fn=_attrs_fn(script), max_depth=3, max_blocks=8, foreign=True)
                     g = gen.gen_file(r, lang, o)
